@@ -5,6 +5,7 @@ solver-driven executor picks a point of the product (ctx.choose) and forks over 
 subject is minimal: a 7-field header in the root container and one child container holding the subject parameter(s).
 """
 import itertools
+import re
 
 HDR = [("VER", 3), ("TYP", 1), ("SHF", 1), ("APID", 11), ("SEQF", 2), ("SEQC", 14), ("LEN", 16)]
 FIXED_DATE = "2024-02-29T12:00:00"
@@ -129,7 +130,7 @@ def _string(lib, c):
         kw["dynamic_length_reference"] = "LENF"
         kw["use_calibrated_value"] = ln != "ref-raw"
         if ln.startswith("ref-adj"):
-            _, _, s, i = ln.split("-", 3)
+            s, i = re.fullmatch(r"ref-adj-(-?\d+)-(-?\d+)", ln).groups()
             kw["length_linear_adjuster"] = _adjuster(lib, int(s), int(i))
             kw["use_calibrated_value"] = False
     if c["delim"] == "term":
@@ -158,7 +159,7 @@ def _binary(lib, c):
         kw["size_reference_parameter"] = "LENF"
         kw["use_calibrated_value"] = ln != "ref-raw"
         if ln.startswith("ref-adj"):
-            _, _, s, i = ln.split("-", 3)
+            s, i = re.fullmatch(r"ref-adj-(-?\d+)-(-?\d+)", ln).groups()
             kw["linear_adjuster"] = _adjuster(lib, int(s), int(i))
             kw["use_calibrated_value"] = False
     lenf = lib.parameter_types.IntegerParameterType("LENF_T", lib.encodings.IntegerDataEncoding(4, "unsigned"))
